@@ -101,7 +101,7 @@ func (s *space) returnedMemory(c *mc.Ctx) {
 func (s *space) marshalOverwrite(w *mc.W, p *lpt, cas interface{}) {
 	el := s.elems[p.e]
 	d := func(op string) func() string {
-		return func() string { return op + " (" + el.Name + "/" + ptalph.RepName[p.rep] + ")" }
+		return func() string { return op + " (" + el.Name + "/" + p.repName() + ")" }
 	}
 	try(w, "MarshalBinary/returned-slice", cas, func() {
 		q := cp(p.P)
